@@ -160,3 +160,17 @@ Theorem C04_parent2child_inverts_child2parent :
     = Some (iota 0 (count_true (f_all (l_filt p)))).
 Proof. exact p2c_c2p_all. Qed.
 Print Assumptions C04_parent2child_inverts_child2parent.
+
+(* For every root dataset whose columns have one value per event and every
+   history (any interleaving, depth up to 4): after rejuvenate of the
+   youngest member the non-scalar column of every child -- read event by
+   event through map_indices_child2parent up to the root -- is its parent's
+   column restricted to the parent's filter, and on every level len, the
+   filter arrays, the stored root ids and all columns have the same size. *)
+Theorem C04_history_nonscalar_view :
+  forall n cols ops,
+    Forall (fun d : col => length d = n) (firstn 3 cols) ->
+    let st := fst (step (fst (run (init n cols) ops)) (3, 0, 0, 0, 0)) in
+    img_ok (s_img st) (s_levels st) /\ Forall lwf (s_levels st).
+Proof. exact history_nonscalar_view. Qed.
+Print Assumptions C04_history_nonscalar_view.
